@@ -50,6 +50,11 @@ def finish(c, rng):
             c['gs'].append((sh, g))
             lines.append(f"t bw {nl + k} {show_ints(sh)} {show_floats(g)}")
         lines += [f't grad {k}' for k in range(nl)]
+        # a second sweep through the same graph after zeroing the leaves must reproduce the gradients: whatever the op saved for
+        # its backward (operands, outputs, masks, statistics) has to survive the first sweep
+        lines += [f't zero {k}' for k in range(nl) if len(c['leaves'][k]) < 3 or c['leaves'][k][2]]
+        lines += [f"t bw {nl + k} {show_ints(sh)} {show_floats(g)}" for k, (sh, g) in enumerate(c['gs'])]
+        lines += [f't grad {k}' for k in range(nl)]
         c['lines'] = lines
         c['nout'] = len(outs)
     c['desc'] = ' ; '.join(c['lines'])[:700]
